@@ -130,7 +130,7 @@ func (h *hist) inflight() {
 	// The delivery, built the way StoreManager.Deliver builds it.
 	sender := r.Pick([]string{"sender@origin.test", "Bounce+1@Origin.Example"})
 	addr := deliveryAddress(r, h.naming, n)
-	msg := genMessage(r, sender, []string{addr})
+	msg := genMessage(r, sender, []string{addr}, nil)
 	var to []*mail.Address
 	for _, t := range msg.expTo {
 		to = append(to, parseExp(t))
@@ -386,10 +386,13 @@ func (h *hist) inflight() {
 		fop := "inflight-followup-show"
 		st, _, data, ok := h.request(fop, "GET", p, nil)
 		h.c.Count("inflight_followup_reads", 1)
-		if !ok || !h.wantStatus(fop, "GET "+p+" after "+req+" during a delivery", st, pick(kind == "delete", 404, 200), n, data) {
+		// a stored message with odd content: the parsed rendering may be a 500 (see oddShapes);
+		// the listing below shows the seen flag all the same
+		excused := ok && kind == "seen" && h.parseExcused(fop, h.m.Get(n, id), st)
+		if !excused && (!ok || !h.wantStatus(fop, "GET "+p+" after "+req+" during a delivery", st, pick(kind == "delete", 404, 200), n, data)) {
 			return
 		}
-		if kind == "seen" {
+		if kind == "seen" && !excused {
 			var got apiMsg
 			if err := json.Unmarshal(data, &got); err != nil {
 				h.violation("C14:"+fop+":bad-json", fmt.Sprintf("GET %s: %v: %s", p, err, fw.Q(string(data))))
